@@ -94,7 +94,9 @@ def corr(rep: C.Report, tier: str):
         rep.case(key=(n, order, int(row), rel, side, h, len(cs)),
                  sample={"op": ln, "model": out, "python_positions": pypos, "python_result": res} if len(rep.samples) < 4 else None)
         rep.count(f"corr row {n}/{order}/{row}")
-        if mpos != pypos or abs(mval - res) > 1e-12 * (abs(mval) + sum(abs(c) for c in cs) / h ** n + 1e-300):
+        fsum = float(np.sum(np.abs(poly(cs)(np.array(pypos))))) if pypos else 0.0
+        # rounding of the weighted sum: function values times |coefficients| <= 10 times 1/h^n
+        if mpos != pypos or abs(mval - res) > 1e-13 * (abs(mval) + 10 * fsum / h ** n) + 1e-300:
             bad += 1
             if bad <= 3:
                 rep.notes.append(f"corr disagreement: {ln} model={out} python pos={pypos} res={res}")
